@@ -8,6 +8,40 @@ ENGINE_PROPS = ['C01', 'C02', 'C03', 'C04', 'C07', 'C08', 'C09', 'C12', 'C13', '
 
 # id -> (level category, technique, level text, level note, design section)
 CHECKS = {
+    'C08': (
+        'exploration',
+        'Hypothesis-generated programs x config trees (plus labelled invalid mutations) compared with an independent '
+        'reference model of input resolution and the dependency graph',
+        'Generated task modules with every input declaration form are mounted under generated namespace trees; the '
+        'library\'s task set, input task objects, optional defaults, graph edges and closure queries are compared with '
+        'the reference model, and invalid declarations (dangling, ambiguous, cyclic, excluded target) must fail at '
+        'construction. Sampled exploration of programs x configurations.',
+        'The reference model (tcv/model.py) is trusted after cross-validation against the library (disagreements triaged '
+        'both ways, see DESIGN.md Corrections); ~~patterns and grouped pattern targets are excluded as ambiguous.',
+        'DESIGN.md §3, §4 C08',
+    ),
+    'C09': (
+        'exploration',
+        'Hypothesis-generated config trees, multi-config files and contexts (plus labelled invalid mutations) compared '
+        'with the reference model of composition and precedence; aliasing probes on caller-owned objects',
+        'Every task\'s bound parameter values and its computed value are compared with the model\'s precedence rules over '
+        'generated trees/contexts; missing/wrong-typed/conflicting declarations must fail at construction; caller-owned '
+        'context objects are snapshotted, container values are mutated through one task and must not be visible '
+        'elsewhere, and a second Config from the same objects must agree again.',
+        'Model trusted as for C08; cross-level context precedence follows "namespace over global".',
+        'DESIGN.md §3, §4 C09',
+    ),
+    'C12': (
+        'exploration',
+        'differential check of generated pipelines against a frozen re-implementation of the 1.4.0 key/layout scheme, '
+        'anchored by golden keys from the repository\'s example notebook',
+        'Keys, locations and the exact set of files written are compared with an independent implementation of the '
+        'documented scheme over generated programs/configs (all data classes, groups, namespaces, quotes/separators in '
+        'values, objects, placeholders, both modes); the frozen implementation itself is checked against 14 keys '
+        'rendered by an earlier release, directly and through the real example configs.',
+        'Agreement with release 1.4.0 rests on the goldens plus reading the pinned source for value forms the goldens lack.',
+        'DESIGN.md §4 C12',
+    ),
     'C10': (
         'exploration',
         'exhaustive enumeration of a small name universe + Hypothesis-generated name sets against a structural oracle',
